@@ -130,6 +130,23 @@ def scenarios(ctx: Ctx):
         sc["live_mode"] = live
         sc["cell"] = f"first failing predicate is ok live={live}"
         yield sc
+    # the only deviation lies under metadata (a label the target specifies): the policy decides all the same
+    for upd in (["patch", 9], ["recreate", 11], ["never"]):
+        for owned in (False, True):
+            for _ in range(1 if ctx.quick() else 6):
+                sc = m.rand_scenario(ctx.rng)
+                m.clean_scenario(sc, ctx.rng)
+                sc["cfg"].update({"plural": "widgets", "readonly": False, "delete_if_exists": False, "create_enabled": True,
+                                  "update": upd, "owned": owned})
+                sc["lookup"] = None
+                sc["pre"] = None
+                sc["template"] = ["Inline", {"metadata": {"labels": {"app": "web", "tier": ctx.rng.choice(["a", "b"])}},
+                                             "spec": m.rand_map(ctx.rng, 2, nonempty=True)}]
+                sc["overlays"] = None
+                sc["live"] = "derive"
+                sc["live_mode"] = "drift_meta"
+                sc["cell"] = f"metadata-only drift upd={upd[0]} owned={owned}"
+                yield sc
     # update / create delays left to the CRD schema's defaults (`update: {recreate: {}}`)
     for upd in ("patch", "recreate"):
         for live in ("drift", "drift_noowner", "absent"):
@@ -177,6 +194,22 @@ def fault_scenarios(ctx: Ctx):
                 sc2 = dict(sc)
                 sc2["cfg"] = dict(sc["cfg"], kind=None)
                 yield sc2, {0: ("http", 500)}
+    # delete-if-exists: the object disappears (or the server fails) between the read and the DELETE; a present object
+    # whose PATCH / DELETE is answered 404 / 409 / 500 under the update policies: never a second mutating call
+    for die, upd in ((True, ["patch", 9]), (True, ["never"]), (False, ["patch", 9]), (False, ["recreate", 11])):
+        for code in (404, 409, 500):
+            for _ in range(1 if ctx.quick() else 6):
+                sc = m.rand_scenario(ctx.rng)
+                m.clean_scenario(sc, ctx.rng)
+                sc["cfg"].update({"update": upd, "readonly": False, "delete_if_exists": die, "create_enabled": True,
+                                  "plural": "widgets"})
+                sc["lookup"] = None
+                sc["pre"] = None
+                sc["live"] = "derive"
+                sc["live_mode"] = "drift"
+                sc["clean"] = False
+                m.prepare_live(sc, ctx.rng)
+                yield sc, {1: ("http", code)}
 
 
 def run_one(ctx: Ctx, sc):
